@@ -204,30 +204,22 @@ def _mc_cfg(ctx, base, consts):
     return path
 
 
-def _design(ctx, cfgs_path, mut_cfgs_path):
-    q = ctx.quick
-    consts = {} if q else {"MaxSteps": 3}
-    env = {"CFGS": cfgs_path}
-    jobs = [dict(module="PhysSelectMC", cfg=_mc_cfg(ctx, "PhysSelectMC", consts), workers=3, timeout=3000, heap="6g",
-                 env=env)]
-    # the design mutants run on the hand-picked configurations only (they must be refuted there)
-    jobs += [dict(module="PhysSelectMC", cfg="PhysSelectMC_mut_" + v, workers=1, timeout=900, heap="2g",
-                  env={"CFGS": mut_cfgs_path}) for v in MUTANTS]
-    res = vlib.tlc_parallel(jobs, maxpar=2)   # 3 workers + one mutant at a time = 4 threads
-    main = res[0]
+def _design(ctx, cfgs_path):
+    consts = {} if ctx.quick else {"MaxSteps": 3}
+    main = vlib.tlc("PhysSelectMC", _mc_cfg(ctx, "PhysSelectMC", consts), workers=4, timeout=6000, heap="6g",
+                    env={"CFGS": cfgs_path}, coverage=not ctx.quick)
+    if main.ok and not ctx.quick:
+        # -coverage 1: no action of the design model may be dead
+        dead = [a for a in ("Pick", "PreStep", "Along", "SelectStep", "Post") if main.coverage.get(a, 0) == 0]
+        if dead:
+            raise vlib.Broken("PhysSelectMC: actions never taken: %s" % dead)
     if main.code != 0:
         if main.violated:
             ctx.violation("design model PhysSelectMC violates %s:\n%s" % (main.violated_names(), main.out[-2500:]),
                           tags={"design": "PhysSelectMC"})
-            return main, [], {}
+            return main, []
         raise vlib.Broken("TLC failed on PhysSelectMC (exit %d):\n%s" % (main.code, main.out[-3000:]))
-    refuted = {}
-    for v, r in zip(MUTANTS, res[1:]):
-        names = re.findall(r"Invariant (\w+) is violated", r.out)
-        if not names:
-            raise vlib.Broken("vacuity guard: design mutant %s was not refuted (exit %d)\n%s" % (v, r.code, r.out[-1500:]))
-        refuted[v] = names[0]
-    return main, _scenarios_of(main.out), refuted
+    return main, _scenarios_of(main.out)
 
 
 # ----------------------------------------------------------------------------- loop runs
@@ -243,20 +235,28 @@ def _loop_runs(seed, n):
     rng = random.Random(seed * 104729 + 5)
     runs = []
     for i in range(n):
-        nprim = rng.randint(6, 12)
         prims = []
-        for k in range(nprim):
-            pt = (0, 0, 1, 1, 2, 2)[rng.randrange(6)]
-            E = 0.05 * (40 / 0.05) ** rng.random()
-            if k == 0:
-                pt, E = 2, 0.3 * (1 + rng.random())    # a positron that stops and annihilates at rest
-            if k == 1:
-                pt, E = 1, 0.3 + 0.5 * rng.random()    # an electron crossing the 0.25 MeV xs threshold
-            r = 4.5 if rng.random() < 0.75 else 30.0
-            prims.append(dict(ev=k % 2, pt=pt, E=E, pos=[r * (2 * rng.random() - 1) for _ in range(3)], dir=_unit(rng)))
+        rich = (i % 2 == 0)
+        if rich:
+            # e-/e+ just above the 0.25 MeV threshold of the ionisation cross section, in the dense box, with
+            # large cross sections: discrete interactions whose post-step cross section is smaller
+            # (integral rejection), positrons that stop and annihilate at rest
+            for k in range(16):
+                prims.append(dict(ev=k % 2, pt=1 + (k % 2), E=0.26 + 0.3 * rng.random(),
+                                  pos=[3.0 * (2 * rng.random() - 1) for _ in range(3)], dir=_unit(rng)))
+            scale, dedx = 5.0, rng.choice([0.5, 1.0])
+        else:
+            for k in range(rng.randint(6, 12)):
+                pt = (0, 0, 1, 1, 2, 2)[rng.randrange(6)]
+                E = 0.05 * (40 / 0.05) ** rng.random()
+                r = 4.5 if rng.random() < 0.75 else 30.0
+                prims.append(dict(ev=k % 2, pt=pt, E=E, pos=[r * (2 * rng.random() - 1) for _ in range(3)], dir=_unit(rng)))
+            scale, dedx = rng.choice([0.5, 1.0, 2.0, 5.0]), rng.choice([1.0, 2.0, 4.0])
+        fixed = 0.0 if rich else rng.choice([0.0, 0.05, 0.3])
+        # (with a fixed step limiter the tracks in the thin world material take thousands of short steps: cap)
         runs.append(dict(id=1000 + i, prims=prims, slots=rng.choice([2, 4, 8]), rng_seed=rng.randrange(1, 1 << 30),
-                         table_scale=rng.choice([0.5, 1.0, 2.0, 5.0]), dedx=rng.choice([1.0, 2.0, 4.0]),
-                         fixed_step=rng.choice([0.0, 0.0, 0.05, 0.3]), fluct=(i % 4 == 3), maxiters=1500))
+                         table_scale=scale, dedx=dedx, fixed_step=fixed, fluct=(i % 4 == 3),
+                         maxiters=60 if fixed else 1500))
     return runs
 
 
@@ -308,16 +308,16 @@ def run(ctx):
     vlib.build(["vphysselect"])
     q = ctx.quick
     t0 = time.time()
-    cfgs = gen_configs(ctx.seed, 5 if q else 24)
+    cfgs = gen_configs(ctx.seed, 5 if q else 16)
     cfgs_path = ctx.path("cfgs.json")
     with open(cfgs_path, "w") as fh:
         json.dump(cfgs, fh)
     mut_path = ctx.path("cfgs_hand.json")
     with open(mut_path, "w") as fh:
         json.dump(_hand_configs(), fh)
-    main, scen, refuted = _design(ctx, cfgs_path, mut_path)
-    vlib.log("X07 design check: %d states, %d transitions, %d scenarios, mutants %s, %.0fs"
-             % (main.distinct, main.generated, len(scen), refuted, time.time() - t0))
+    main, scen = _design(ctx, cfgs_path)
+    vlib.log("X07 design check: %d states, %d transitions, %d scenarios, %.0fs"
+             % (main.distinct, main.generated, len(scen), time.time() - t0))
     if ctx.violations:
         return
     if not scen:
@@ -337,7 +337,7 @@ def run(ctx):
         ids = {c["id"] for c in sh}
         jobs.append(("api", "api%02d" % i, {"D": D, "LS": LS, "cfgs": sh,
                                             "scen": [s for cid in sorted(ids) for s in byc.get(cid, [])]}))
-    lruns = _loop_runs(ctx.seed, 12 if q else 160)
+    lruns = _loop_runs(ctx.seed, 10 if q else 120)
     nls = 2 if q else 8
     for i in range(nls):
         jobs.append(("loop", "loop%02d" % i, {"runs": lruns[i::nls]}))
@@ -351,8 +351,19 @@ def run(ctx):
     t0 = time.time()
     tj = [dict(module="PhysSelectTrace", cfg="PhysSelectTrace", workers=1, env={"TRACE": p}, timeout=3000, heap="3g")
           for p in outs]
+    # the design mutants (vacuity guard) run on the hand-picked configurations, alongside the validations
+    mutants = MUTANTS[::2] if q else MUTANTS     # quick: sel_ge, rej_all, dec_never, nosample
+    tj += [dict(module="PhysSelectMC", cfg="PhysSelectMC_mut_" + v, workers=1, timeout=900, heap="2g",
+                env={"CFGS": mut_path}) for v in mutants]
     results = vlib.tlc_parallel(tj, maxpar=4)
-    vlib.log("X07 trace validation: %.0fs" % (time.time() - t0))
+    refuted = {}
+    for v, r in zip(mutants, results[len(outs):]):
+        names = re.findall(r"Invariant (\w+) is violated", r.out)
+        if not names:
+            raise vlib.Broken("vacuity guard: design mutant %s was not refuted (exit %d)\n%s" % (v, r.code, r.out[-1500:]))
+        refuted[v] = names[0]
+    results = results[:len(outs)]
+    vlib.log("X07 trace validation + design mutants %s: %.0fs" % (refuted, time.time() - t0))
     stat, cnt = {}, {}
     samples = []
     for (mode, name, payload), path, r in zip(jobs, outs, results):
@@ -389,7 +400,8 @@ def run(ctx):
                 "api:act:physics-discrete-select": 50, "api:act:eloss-range": 50, "api:act:physics-fixed-step": 10,
                 "api:act:none": 1,
                 "loop:steps": 500, "loop:discrete": 50, "loop:rejected": 3, "loop:carried": 100,
-                "loop:decremented": 100, "loop:forced": 1, "loop:stopped0": 1}
+                "loop:decremented": 100, "loop:forced": 1, "loop:emaxbranch": 10,
+                "loop:lact:physics-fixed-step": 10, "loop:lact:eloss-range": 50}
         low = {k: stat.get(k, 0) for k, v in need.items() if stat.get(k, 0) < v}
         if low:
             raise vlib.Broken("X07 binding is vacuous: too few records of kind %s (need %s)" % (low, need))
@@ -408,6 +420,8 @@ def run(ctx):
         "exhaustive": True,
         "configurations": len(cfgs), "scenarios_replayed": len(scen), "selections_replayed": nsel,
         "loop_runs": len(lruns), "impl_stats": stat, "clause_counts": cnt, "design_mutants_refuted": refuted,
+        "design_action_coverage": {a: main.coverage.get(a, 0) for a in ("Pick", "PreStep", "Along", "SelectStep", "Post")
+                                   if main.coverage},
     })
     ctx.assumptions += [
         "api mode: hand-made Process/Model classes with plateau tables on the grid 1,2,4,.. MeV (XsCalculator/RangeCalculator "
